@@ -267,6 +267,7 @@ def r4_templates(ctx):
 
 
 def run(ctx):
+    ctx.guard("C07.K17", "constructor fidelity", lambda: __import__("ctor").check_for(ctx, "C07", 5))
     ctx.guard("C07.R4", "templates", lambda: r4_templates(ctx))
     ctx.guard("C07.R1", "BestIndividual::update", lambda: r1_update(ctx))
     ctx.guard("C07.R2", "best of population", lambda: r2_best_of_population(ctx))
